@@ -8,7 +8,7 @@
    (sorted keys/ids, no empty collection), which every command preserves and the empty database
    satisfies; the theorems are therefore stated for initial states with [inv]. *)
 From T38 Require Import Base.Bytes Base.SMap Model.Field Model.Object Model.Glob Model.Spec Model.Keyspace
-  Proofs.KsInv Proofs.KsProgram Proofs.KsReplay.
+  Proofs.KsInv Proofs.KsProgram Proofs.KsReplay Proofs.KsDeadline.
 From T38 Require Model.Resp Model.Aof Proofs.AofProofs Model.Replay.
 
 (* a command that is not appended to the log left the dataset exactly as it was: reads, errors,
@@ -50,6 +50,52 @@ Theorem c03ks_crash_prefix : forall O e p s0 q t,
                (m <= length (Replay.logof state (ks_exec O e) p1 s0))%nat).
 Proof. exact ks_crash_prefix. Qed.
 Print Assumptions c03ks_crash_prefix.
+
+(* Restart at another clock. Replaying the same log with a different frozen `now` (everything else in
+   the environment equal) from states that agree up to deadline VALUES yields states that agree up to
+   deadline values: same keys, ids, geometries, fields and has-deadline flags ([er] replaces every
+   deadline by 0 / 1; c03ks_deadline_meaning spells it out).  Side condition [clock_ok]: no argument
+   of a logged command, read as seconds, makes  wrap64 (now + int64(float64(time.Second)*x))  exactly
+   0 at either clock — deadline 0 means "none", so `SET k id EX x` with now + x*1e9 = 0 stores an
+   object WITHOUT deadline (only possible for x = -(unix time), see docs/notes/C01.md). *)
+Theorem c03ks_deadline_kept : forall O e e' log,
+  env_sim e e' -> Forall (clock_ok O e e') log ->
+  forall s s', er s = er s' ->
+  er (Replay.replay state (ks_exec O e) log s) = er (Replay.replay state (ks_exec O e') log s').
+Proof. exact ks_deadline_kept. Qed.
+Print Assumptions c03ks_deadline_kept.
+
+(* ... hence a restart at clock e' of the log written at clock e reproduces the live state up to
+   deadline values *)
+Theorem c03ks_restart_deadline_kept : forall O e e' p s0,
+  inv s0 -> env_sim e e' -> Forall (clock_ok O e e') (Replay.logof state (ks_exec O e) p s0) ->
+  er (Replay.replay state (ks_exec O e') (Replay.logof state (ks_exec O e) p s0) s0) =
+  er (Replay.run state (ks_exec O e) p s0).
+Proof. exact ks_restart_deadline_kept. Qed.
+Print Assumptions c03ks_restart_deadline_kept.
+
+Theorem c03ks_deadline_meaning : forall s s', er s = er s' ->
+  keys s = keys s' /\
+  forall key id,
+    match find s key id, find s' key id with
+    | Some o, Some o' => o_id o = o_id o' /\ o_geo o = o_geo o' /\ o_fields o = o_fields o' /\
+                         ((o_ex o =? 0)%Z = (o_ex o' =? 0)%Z)
+    | None, None => True
+    | _, _ => False
+    end.
+Proof. exact er_meaning. Qed.
+Print Assumptions c03ks_deadline_meaning.
+
+(* the side condition is satisfiable and the theorem is not vacuous: SET .. EX ; EXPIRE ; SET replayed
+   at now = 5 and now = 1000 give different states that agree after erasing deadline values *)
+Example c03ks_deadline_nonvacuous :
+  env_sim (toy_env 5) (toy_env 1000) /\
+  Forall (clock_ok toy_oracle (toy_env 5) (toy_env 1000)) dl_log /\
+  Replay.replay state (ks_exec toy_oracle (toy_env 5)) dl_log [] <>
+  Replay.replay state (ks_exec toy_oracle (toy_env 1000)) dl_log [] /\
+  er (Replay.replay state (ks_exec toy_oracle (toy_env 5)) dl_log []) =
+  er (Replay.replay state (ks_exec toy_oracle (toy_env 1000)) dl_log []).
+Proof. exact deadline_kept_nonvacuous. Qed.
 
 (* JDEL changes the dataset; it is logged because jdel is now in the write arm. With the pinned lock
    table (jdel in the default arm, finding F3) this very step produced no record and noupd failed. *)
